@@ -388,5 +388,10 @@ def run(repo: Repo, tier: str) -> Report:
     r_stateless(rep, repo, [('WhittakerSmoother', 'whitsvc')])
     from ..rules import ws2d_straight
     ws2d_straight(rep, repo)
+    from ..rules import input_writes
+    for kn_ in ("ws2doptv", "ws2doptvp", "ws2doptvplc"):
+        iw_ = input_writes(kernels[kn_])
+        rep.ob("R-READONLY", kernels[kn_].file, kn_, "the smoother never stores into its input series (the band / lambda of a later call would belong to a different series)", not iw_,
+               f"`{norm_stmt(iw_[0])}` stores into the input" if iw_ else "", iw_[0] if iw_ else f"{kn_}: stores into inputs")
     rep.floor("C04 obligations", len(rep.obls), 100)
     return rep
